@@ -753,6 +753,24 @@ pub fn run_c18(ctx: &Ctx) -> i32 {
                                 f.send_chunk(&sent[b..]);
                             }
                             *local.entry("scenarios_with_the_oversized_body_in_three_pieces".into()).or_insert(0) += 1;
+                        } else if c % 3 == 1 && complete >= 1 && invalid_at.is_none() && {
+                            let j = complete - 1;
+                            let hs = (if j == 0 { 0 } else { ends[j - 1] }) + 24;
+                            hs < ends[j] && ends[j] <= sent.len()
+                        } {
+                            // another third: the header of the last complete request arrives alone, its body (and
+                            // whatever follows) in a later segment, then the fault
+                            let j = complete - 1;
+                            let hs = (if j == 0 { 0 } else { ends[j - 1] }) + 24;
+                            f.send_chunk(&sent[..hs]);
+                            if immediate {
+                                use std::io::Write;
+                                let _ = f.s.write_all(&sent[hs..]);
+                                f.sent += (sent.len() - hs) as u64;
+                            } else {
+                                f.send_chunk(&sent[hs..]);
+                            }
+                            *local.entry("scenarios_with_the_last_header_in_a_segment_of_its_own".into()).or_insert(0) += 1;
                         } else if immediate {
                             use std::io::Write;
                             let _ = f.s.write_all(&sent);
@@ -992,6 +1010,11 @@ fn server_thread_cpu() -> Vec<(String, char, u64)> {
         }
     }
     out
+}
+
+/// CPU time (clock ticks) consumed so far by all server threads of this process
+pub fn server_thread_cpu_total() -> u64 {
+    server_thread_cpu().iter().map(|x| x.2).sum()
 }
 
 pub fn run_stall(ctx: &Ctx) -> i32 {
